@@ -369,6 +369,39 @@ def record_pipeline_overlap(b, world, traj, f, ms, want):
     return sites_drive.record_pipeline(b, world, None, inner_fraction=f, ms=ms, ks=(), want=set(want), traj=traj, overlap=True)
 
 
+def split_sweep(rep: Report, Lmax, nmax):
+    """Trajectory.split for EVERY (number of frames, number of parts) up to the bounds (both with and without equal_parts): the frame
+    ranges of the parts, found by matching their positions in the source, are judged by TraceSites (VTrajSplit)."""
+    core.gemdat_src_first()
+    from pymatgen.core import Lattice, Species
+    from gemdat import Trajectory
+    rng = np.random.default_rng(rep.seed + 707)
+    recs = []
+    lat = Lattice(gen.lattice_matrix(gen.FAMILIES['tric'], 'pmg'))
+    b = 300000
+    for L in range(2, Lmax + 1):
+        coords = np.zeros((L, 2, 3))
+        coords[:, 0, 0] = (np.arange(L) + 0.5) / L                       # every frame is distinct
+        coords[:, 1, :] = rng.random((L, 3))
+        src = Trajectory(species=[Species('Li'), Species('O')], coords=coords, lattice=lat, time_step=1e-15, metadata={'temperature': 300})
+        for n in range(1, min(L - 1, nmax) + 1):
+            if (L + n) % 5 == 0:
+                src.displacements                                            # the source in either internal representation
+            recs.append(sites_drive.traj_split_record(b, src, n, bool((L * 7 + n) % 3 == 0)))
+            b += 1
+    verdicts = core.validate_traces('TraceSites', recs, timeout=1500)
+    rep.add_trace_stats()
+    bad = 0
+    for rec, (v, act) in zip(recs, verdicts):
+        rep.evaluations += 1
+        rep.nontrivial += 1
+        if v != 'ok' and bad < 3:
+            bad += 1
+            rep.violation({'kind': 'leg-B', 'clause': v, 'frames': rec['T'], 'n_parts': rec['k'], 'equal_parts': rec['equal'], 'ranges': rec['ranges'][-3:]})
+    rep.traces += len(recs)
+    rep.extra['split_sweep'] = {'frames_up_to': Lmax, 'parts_up_to': nmax, 'splits': len(recs)}
+
+
 def scale_by_tiling(rep: Report, total_frames=33200, ms=(0, 4)):
     """C03/C04 at scale: a TLC-judged periodic history (every atom in the same inner site in the first and last frame of the period, so
     that no event crosses a period boundary and the classifier state is clean there) repeated beyond 2^15 frames: the event and jump
